@@ -198,6 +198,11 @@ def build_cluster(case, root, cfgdir):
 
         text = yaml.safe_dump({"name": "r", "clusters": {"c": tcfg}}).replace("'@@CACHE@@'", "{{ cache_mb }}").replace(
             "@@CACHE@@", "{{ cache_mb }}")
+        # YAML has more than one spelling for a boolean: the read-only flag is written in one of them (by the options
+        # of the case, no draw)
+        k = sum(map(ord, label_of(case))) % 4
+        text = text.replace("readonly: true", "readonly: " + ["true", "yes", "On", "TRUE"][k]).replace(
+            "readonly: false", "readonly: " + ["false", "no", "Off", "NO"][k])
         with open(os.path.join(cfgdir, "repo.yaml"), "w") as f:
             f.write(text)
         repo = m.ConfigurationRepository.from_file(os.path.join(cfgdir, "repo.yaml"), **params)
